@@ -451,5 +451,16 @@ Proof.
   intros Hn Hb Hd.
   exists 1, [UTDec; UTCancel; UTFeedCancel; UTWorker 0; UTAsmCancel; UTDec].
   destruct n as [|m]; [lia|].
-  unfold run, run1. cbn. rewrite Hd. cbn. rewrite Hb. cbn. repeat split; reflexivity.
+  change [UTDec; UTCancel; UTFeedCancel; UTWorker 0; UTAsmCancel; UTDec]
+    with ([UTDec; UTCancel; UTFeedCancel; UTWorker 0; UTAsmCancel] ++ [UTDec]).
+  cbv zeta. rewrite !run_app.
+  (* the first five steps do not consult boundary / dec_ok: evaluate them in the VM *)
+  set (pre := run (ustep (S m) csize fetch_ok boundary dec_ok cap false true)
+                  [UTDec; UTCancel; UTFeedCancel; UTWorker 0; UTAsmCancel] (uinit 1)).
+  set (pre' := run (ustep (S m) csize fetch_ok boundary dec_ok cap true true)
+                   [UTDec; UTCancel; UTFeedCancel; UTWorker 0; UTAsmCancel] (uinit 1)).
+  vm_compute in pre. vm_compute in pre'. subst pre pre'.
+  unfold run, run1, fold_left, ustep.
+  cbn [u_dec u_pos u_asm u_wclosed negb]. rewrite Hd. cbn [negb]. rewrite Hb.
+  vm_compute. repeat split; reflexivity.
 Qed.
